@@ -17,6 +17,7 @@
 -/
 import PestModel.Pairs
 import PestModel.Lemmas.Frame
+import PestModel.Lemmas.TagHist
 
 namespace Pest
 
@@ -1671,7 +1672,9 @@ abbrev TP : Pair → Prop := fun p => ∀ t, p.tag = some t → TagOK g e0 t
 /-- every tag waiting on `tag_stack` is a grammar tag -/
 def TS (c : PState) : Prop := ∀ t ∈ c.tagStack, TagOK g e0 t
 
-/-- stated for failures too: nothing restores `tag_stack` -/
+/-- stated for failures too (a failing node may leave a proper suffix of the pending tags
+    behind; the nodes that `restore` reinstate the tags saved by their own `checkpoint`, see
+    `TagBal` in Lemmas/TagHist.lean) -/
 def TagsOK (rec : Sem1) : Prop :=
   ∀ x, Reach g e0 x → ∀ c m c' ps, TS g e0 c → rec x c = .done m c' ps →
     TS g e0 c' ∧ AllPairs (TP g e0) ps
@@ -1687,16 +1690,8 @@ theorem TS.tail {c c' : PState} (h : TS g e0 c) (e : c'.tagStack = c.tagStack.ta
 theorem ts_init (k : Nat) : TS g e0 (PState.init k) := by
   intro t ht; simp [PState.init] at ht
 
-@[simp] theorem checkpoint_tagStack (c : PState) : c.checkpoint.tagStack = c.tagStack := rfl
-@[simp] theorem ok_tagStack (c : PState) : c.ok.tagStack = c.tagStack := rfl
-@[simp] theorem restore_tagStack (c : PState) : c.restore.tagStack = c.tagStack := rfl
-
-theorem ruleEnter_tagStack (name : String) (mod : Nat) (c : PState) :
-    (ruleEnter name mod c).tagStack = c.tagStack := by
-  unfold ruleEnter
-  split
-  · rfl
-  · split <;> rfl
+theorem TS.of_suffix {c c' : PState} (h : TS g e0 c) (e : c'.tagStack <:+ c.tagStack) : TS g e0 c' := by
+  intro t ht; exact h t (e.subset ht)
 
 /-- what every result of the helpers below satisfies -/
 def Post (r : R1) : Prop :=
@@ -1807,7 +1802,7 @@ def PostTry : TryR → Prop
   | .no c1 => TS g e0 c1
   | .stop r => ∀ m c' ps, r ≠ .done m c' ps
 
-theorem tryTrivia_tags {rec : Sem1} (hrec : TagsOK g e0 rec) {r : Option Rule}
+theorem tryTrivia_tags {rec : Sem1} (hbal : TagBal rec) (hrec : TagsOK g e0 rec) {r : Option Rule}
     (hr : ∀ r', r = some r' → r' ∈ g.rules) {c : PState} (hc : TS g e0 c) :
     PostTry (g := g) (e0 := e0) (tryTrivia rec r c) := by
   unfold tryTrivia
@@ -1823,9 +1818,10 @@ theorem tryTrivia_tags {rec : Sem1} (hrec : TagsOK g e0 rec) {r : Option Rule}
       obtain ⟨a, b⟩ := hp m c' ps hx
       cases m with
       | true => exact ⟨a.of_eq rfl, b⟩
-      | false => exact a.of_eq rfl
+      | false =>
+        exact hc.of_eq (ruleParse_tf hbal r.name r.mod r.body c.checkpoint _ _ _ hx).restore_after.stack
 
-theorem triviaLoop_tags {rec : Sem1} (hrec : TagsOK g e0 rec) {ws cm : Option Rule}
+theorem triviaLoop_tags {rec : Sem1} (hbal : TagBal rec) (hrec : TagsOK g e0 rec) {ws cm : Option Rule}
     (hws : ∀ r', ws = some r' → r' ∈ g.rules) (hcm : ∀ r', cm = some r' → r' ∈ g.rules) :
     ∀ (k : Nat) (c : PState) (acc : List Pair), TS g e0 c → AllPairs (TP g e0) acc →
       Post (g := g) (e0 := e0) (triviaLoop rec ws cm k c acc) := by
@@ -1835,7 +1831,7 @@ theorem triviaLoop_tags {rec : Sem1} (hrec : TagsOK g e0 rec) {ws cm : Option Ru
   | succ k ih =>
     intro c acc hc hacc
     simp only [triviaLoop]
-    have h1 := tryTrivia_tags hrec hws hc
+    have h1 := tryTrivia_tags hbal hrec hws hc
     cases hx : tryTrivia rec ws c with
     | matched c' ps =>
       rw [hx] at h1
@@ -1847,7 +1843,7 @@ theorem triviaLoop_tags {rec : Sem1} (hrec : TagsOK g e0 rec) {ws cm : Option Ru
     | no c1 =>
       rw [hx] at h1
       simp only []
-      have h2 := tryTrivia_tags hrec hcm (c := c1) h1
+      have h2 := tryTrivia_tags hbal hrec hcm (c := c1) h1
       cases hy : tryTrivia rec cm c1 with
       | matched c' ps =>
         rw [hy] at h2
@@ -1860,7 +1856,7 @@ theorem triviaLoop_tags {rec : Sem1} (hrec : TagsOK g e0 rec) {ws cm : Option Ru
         rw [hy] at h2
         exact .done h2 hacc
 
-theorem parseTrivia_tags {rec : Sem1} (hrec : TagsOK g e0 rec) (k : Nat) {c : PState}
+theorem parseTrivia_tags {rec : Sem1} (hbal : TagBal rec) (hrec : TagsOK g e0 rec) (k : Nat) {c : PState}
     (hc : TS g e0 c) : Post (g := g) (e0 := e0) (parseTrivia g rec k c) := by
   unfold parseTrivia
   by_cases ha : c.adepth.val > 0
@@ -1875,7 +1871,7 @@ theorem parseTrivia_tags {rec : Sem1} (hrec : TagsOK g e0 rec) (k : Nat) {c : PS
       by_cases hn : ((g.lookup "WHITESPACE").isNone && (g.lookup "COMMENT").isNone) = true
       · simp only [hn, ↓reduceIte]; exact .done hc .nil
       · simp only [hn, Bool.false_eq_true, ↓reduceIte]
-        have hl := triviaLoop_tags hrec (ws := g.lookup "WHITESPACE") (cm := g.lookup "COMMENT")
+        have hl := triviaLoop_tags hbal hrec (ws := g.lookup "WHITESPACE") (cm := g.lookup "COMMENT")
           (fun _ hl => Grammar.lookup_mem hl) (fun _ hl => Grammar.lookup_mem hl) k
           { c with suppress := true } [] (hc.of_eq rfl) .nil
         cases hx : triviaLoop rec (g.lookup "WHITESPACE") (g.lookup "COMMENT") k { c with suppress := true } [] with
@@ -1885,7 +1881,7 @@ theorem parseTrivia_tags {rec : Sem1} (hrec : TagsOK g e0 rec) (k : Nat) {c : PS
           obtain ⟨a, b⟩ := hl m c' ps hx
           exact .done (a.of_eq rfl) b
 
-theorem seqParse_tags {rec : Sem1} (hrec : TagsOK g e0 rec) (k : Nat) :
+theorem seqParse_tags {rec : Sem1} (hbal : TagBal rec) (hrec : TagsOK g e0 rec) (k : Nat) :
     ∀ (es : List Expr), (∀ x ∈ es, Reach g e0 x) → ∀ (c : PState) (acc : List Pair),
       TS g e0 c → AllPairs (TP g e0) acc → Post (g := g) (e0 := e0) (seqParse g rec k es c acc) := by
   intro es
@@ -1907,7 +1903,7 @@ theorem seqParse_tags {rec : Sem1} (hrec : TagsOK g e0 rec) (k : Nat) :
         by_cases hr : rest.isEmpty = true
         · simp only [hr, ↓reduceIte]; exact .done a (hacc.append b)
         · simp only [hr, Bool.false_eq_true, ↓reduceIte]
-          have ht := parseTrivia_tags hrec k a
+          have ht := parseTrivia_tags hbal hrec k a
           cases hx : parseTrivia g rec k c1 with
           | oof => exact .oof
           | exc kx => exact .exc kx
@@ -1915,7 +1911,7 @@ theorem seqParse_tags {rec : Sem1} (hrec : TagsOK g e0 rec) (k : Nat) :
             obtain ⟨a2, b2⟩ := ht m2 c2 tps hx
             exact ih hrest c2 _ a2 ((hacc.append b).append b2)
 
-theorem choiceParse_tags {rec : Sem1} (hrec : TagsOK g e0 rec) :
+theorem choiceParse_tags {rec : Sem1} (hbal : TagBal rec) (hrec : TagsOK g e0 rec) :
     ∀ (es : List Expr), (∀ x ∈ es, Reach g e0 x) → ∀ (c : PState),
       TS g e0 c → Post (g := g) (e0 := e0) (choiceParse rec es c) := by
   intro es
@@ -1931,9 +1927,12 @@ theorem choiceParse_tags {rec : Sem1} (hrec : TagsOK g e0 rec) :
       obtain ⟨a, b⟩ := hrec e (hes e (List.mem_cons_self ..)) _ _ _ _ (hc.of_eq (by rfl)) he
       cases m with
       | true => exact .done (a.of_eq rfl) b
-      | false => exact ih (fun x hx => hes x (List.mem_cons_of_mem _ hx)) c1.restore (a.of_eq rfl)
+      | false =>
+        exact ih (fun x hx => hes x (List.mem_cons_of_mem _ hx)) c1.restore
+          (hc.of_eq (hbal _ _ _ _ _ he).restore_after.stack)
 
-theorem repLoop_tags {rec : Sem1} (hrec : TagsOK g e0 rec) {e : Expr} (he0 : Reach g e0 e) (kk : Nat) :
+theorem repLoop_tags {rec : Sem1} (hbal : TagBal rec) (hrec : TagsOK g e0 rec) {e : Expr}
+    (he0 : Reach g e0 e) (kk : Nat) :
     ∀ (k : Nat) (first : Bool) (c : PState) (acc : List Pair), TS g e0 c → AllPairs (TP g e0) acc →
       Post (g := g) (e0 := e0) (repLoop g rec e k kk first c acc) := by
   intro k
@@ -1947,7 +1946,13 @@ theorem repLoop_tags {rec : Sem1} (hrec : TagsOK g e0 rec) {e : Expr} (he0 : Rea
       by_cases hf : first = true
       · simp only [hf, ↓reduceIte]; exact .done (hc.of_eq rfl) .nil
       · simp only [hf, Bool.false_eq_true, ↓reduceIte]
-        exact parseTrivia_tags hrec kk (hc.of_eq rfl)
+        exact parseTrivia_tags hbal hrec kk (hc.of_eq rfl)
+    have hTf : L1.TF c.checkpoint
+        (if first = true then R1.done true c.checkpoint [] else parseTrivia g rec kk c.checkpoint) := by
+      by_cases hf : first = true
+      · simp only [hf, ↓reduceIte]; exact .done (.refl _)
+      · simp only [hf, Bool.false_eq_true, ↓reduceIte]
+        exact parseTrivia_tf hbal kk _
     cases hx : (if first = true then R1.done true c.checkpoint [] else parseTrivia g rec kk c.checkpoint) with
     | oof => exact .oof
     | exc kx => exact .exc kx
@@ -1961,10 +1966,12 @@ theorem repLoop_tags {rec : Sem1} (hrec : TagsOK g e0 rec) {e : Expr} (he0 : Rea
         obtain ⟨a2, b2⟩ := hrec e he0 _ _ _ _ a1 he
         cases m2 with
         | true => exact ih false c2.ok _ (a2.of_eq rfl) ((hacc.append b1).append b2)
-        | false => exact .done (a2.of_eq rfl) hacc
+        | false =>
+          exact .done (hc.of_eq ((hTf m c1 tps hx).trans (hbal _ _ _ _ _ he)).restore_after.stack) hacc
 
-theorem popAllLoop_tags : ∀ (k : Nat) (c : PState) (position : Nat), TS g e0 c →
-    Post (g := g) (e0 := e0) (popAllLoop inp k c position) := by
+/-- POP_ALL runs under the checkpoint taken at `c0` -/
+theorem popAllLoop_tags (c0 : PState) (h0 : TS g e0 c0) : ∀ (k : Nat) (c : PState) (position : Nat),
+    TagFrame c0.checkpoint c → Post (g := g) (e0 := e0) (popAllLoop inp k c position) := by
   intro k
   induction k with
   | zero => intro c position _; simp only [popAllLoop]; exact .oof
@@ -1972,17 +1979,18 @@ theorem popAllLoop_tags : ∀ (k : Nat) (c : PState) (position : Nat), TS g e0 c
     intro c position hc
     simp only [popAllLoop]
     cases hp : c.ustack.pop with
-    | none => exact .done (hc.of_eq rfl) .nil
+    | none => exact .done (h0.of_suffix hc.suf) .nil
     | some q =>
       obtain ⟨lit, us⟩ := q
       simp only []
+      have hc' : TagFrame c0.checkpoint { c with ustack := us } := ⟨hc.hist, hc.suf⟩
       by_cases hm : startsWithAt inp lit position = true
       · simp only [hm, ↓reduceIte]
-        exact ih _ _ (hc.of_eq rfl)
+        exact ih _ _ hc'
       · simp only [hm, Bool.false_eq_true, ↓reduceIte]
-        exact failT_tags (hc.of_eq rfl)
+        exact failT_tags (h0.of_eq hc'.restore_after.stack)
 
-theorem step_tags {rec : Sem1} (k : Nat) (hrec : TagsOK g e0 rec) :
+theorem step_tags {rec : Sem1} (k : Nat) (hbal : TagBal rec) (hrec : TagsOK g e0 rec) :
     TagsOK g e0 (step g inp k rec) := by
   intro x hx c m c' ps hc
   -- every case proves `Post (step … x c)`
@@ -2012,8 +2020,8 @@ theorem step_tags {rec : Sem1} (k : Nat) (hrec : TagsOK g e0 rec) :
     refine withTag_tags ?_ hc (fun d hd => callRule_tags hrec name hd)
     intro t ht; subst ht; exact Or.inl ⟨name, hx⟩
   | rule name mod sm body => exact ruleParse_tags hrec name mod (.rule hx) hc
-  | seq es => exact seqParse_tags hrec k es (fun y hy => .seq hx hy) c [] hc .nil
-  | choice es => exact choiceParse_tags hrec es (fun y hy => .choice hx hy) c hc
+  | seq es => exact seqParse_tags hbal hrec k es (fun y hy => .seq hx hy) c [] hc .nil
+  | choice es => exact choiceParse_tags hbal hrec es (fun y hy => .choice hx hy) c hc
   | opt e =>
     simp only [step]
     cases he : rec e c.checkpoint with
@@ -2023,32 +2031,32 @@ theorem step_tags {rec : Sem1} (k : Nat) (hrec : TagsOK g e0 rec) :
       obtain ⟨a, b⟩ := hrec e (.opt hx) _ _ _ _ (hc.of_eq (by rfl)) he
       cases m1 with
       | true => exact .done (a.of_eq rfl) b
-      | false => exact .done (a.of_eq rfl) .nil
-  | rep e => exact repLoop_tags hrec (.rep hx) k k true c [] hc .nil
+      | false => exact .done (hc.of_eq (hbal _ _ _ _ _ he).restore_after.stack) .nil
+  | rep e => exact repLoop_tags hbal hrec (.rep hx) k k true c [] hc .nil
   | rep1 e =>
-    refine seqParse_tags hrec k _ ?_ c [] hc .nil
+    refine seqParse_tags hbal hrec k _ ?_ c [] hc .nil
     intro y hy
     simp only [List.mem_cons, List.not_mem_nil, or_false] at hy
     rcases hy with rfl | rfl
     · exact .rep1 hx
     · exact .rep1Rep hx
   | repExact e n =>
-    refine seqParse_tags hrec k _ ?_ c [] hc .nil
+    refine seqParse_tags hbal hrec k _ ?_ c [] hc .nil
     intro y hy
     rw [(List.mem_replicate.mp hy).2]; exact .repExact hx
   | repMin e n =>
-    refine seqParse_tags hrec k _ ?_ c [] hc .nil
+    refine seqParse_tags hbal hrec k _ ?_ c [] hc .nil
     intro y hy
     rcases List.mem_append.mp hy with hy | hy
     · rw [(List.mem_replicate.mp hy).2]; exact .repMin hx
     · simp only [List.mem_cons, List.not_mem_nil, or_false] at hy
       rw [hy]; exact .repMinRep hx
   | repMax e n =>
-    refine seqParse_tags hrec k _ ?_ c [] hc .nil
+    refine seqParse_tags hbal hrec k _ ?_ c [] hc .nil
     intro y hy
     rw [(List.mem_replicate.mp hy).2]; exact .repMaxOpt hx
   | repMinMax e m n =>
-    refine seqParse_tags hrec k _ ?_ c [] hc .nil
+    refine seqParse_tags hbal hrec k _ ?_ c [] hc .nil
     intro y hy
     rcases List.mem_append.mp hy with hy | hy
     · rw [(List.mem_replicate.mp hy).2]; exact .repMinMax hx
@@ -2059,25 +2067,26 @@ theorem step_tags {rec : Sem1} (k : Nat) (hrec : TagsOK g e0 rec) :
     | oof => exact .oof
     | exc kx => exact .exc kx
     | done m1 c1 ps1 =>
-      obtain ⟨a, _⟩ := hrec e (.andP hx) _ _ _ _ (hc.of_eq (by rfl)) he
-      exact .done (a.of_eq rfl) .nil
+      exact .done (hc.of_eq (hbal _ _ _ _ _ he).restore_after.stack) .nil
   | notP e =>
     simp only [step]
     cases he : rec e { c.checkpoint with negDepth := c.checkpoint.negDepth + 1 } with
     | oof => exact .oof
     | exc kx => exact .exc kx
     | done m1 c1 ps1 =>
-      obtain ⟨a, _⟩ := hrec e (.notP hx) _ _ _ _ (hc.of_eq (by rfl)) he
+      have a' := hbal _ _ _ _ _ he
+      have a : TagFrame c.checkpoint c1 := ⟨a'.hist, a'.suf⟩
+      have r := a.restore_after
       simp only []
       cases m1 with
-      | false => simp only [Bool.false_eq_true, ↓reduceIte]; exact .done (a.of_eq rfl) .nil
+      | false => simp only [Bool.false_eq_true, ↓reduceIte]; exact .done (hc.of_eq r.stack) .nil
       | true =>
         simp only [↓reduceIte]
         cases hf : c1.restore.fail (failedName e) true with
         | none => exact .exc _
         | some c3 =>
           simp only []
-          exact .done (a.of_eq (by simp only [(fail_same hf).2.2.2.2.2.2.1, restore_tagStack])) .nil
+          exact .done (hc.of_eq ((fail_tags hf).1.trans r.stack)) .nil
   | group e tag =>
     simp only [step]
     refine withTag_tags ?_ hc (fun d hd => ?_)
@@ -2120,7 +2129,7 @@ theorem step_tags {rec : Sem1} (k : Nat) (hrec : TagsOK g e0 rec) :
         · exact hnil rfl
         · exact .exc _
       · exact failT_tags hc
-  | popAll => simp only [step]; exact popAllLoop_tags inp _ _ _ (hc.of_eq rfl)
+  | popAll => simp only [step]; exact popAllLoop_tags inp c hc _ _ _ (.refl _)
   | drop =>
     simp only [step]
     split
@@ -2151,7 +2160,7 @@ theorem run_tags : ∀ n, TagsOK g e0 (run g inp n) := by
   intro n
   induction n with
   | zero => intro x _ c m c' ps _ h; simp [run] at h
-  | succ n ih => exact step_tags inp n ih
+  | succ n ih => exact step_tags inp n (run_tf inp g n) ih
 
 /-- **C06, tags (interpreter model).**  Starting with only grammar tags waiting on the tag
     stack (in particular: none), every tag of every pair, at every depth, of the result is the
